@@ -91,6 +91,11 @@ Print Assumptions C14_peer_close_noticed.
 Theorem C14_lockset_ok : lockset_ok exp_thr exp_multi exporter_accesses = true.
 Proof. exact exp_lockset_ok. Qed.
 Print Assumptions C14_lockset_ok.
+(* and the mutex that guards seqNumber is taken in one critical section that covers increment,
+   message creation and write (the shape the model's SendSet has) *)
+Theorem C14_send_discipline : guard_discipline exporter_f_seqNumber exporter_accesses exporter_methods = true.
+Proof. exact exp_send_discipline. Qed.
+Print Assumptions C14_send_discipline.
 Theorem C14_race_free : forall tr,
   lock_wf tr -> consistent exp_thr exp_multi exporter_accesses tr ->
   forall p3 t2 b r2 p2 t1 a r1 p1,
